@@ -1,7 +1,9 @@
 import os
 from vlib import core
 
-WRAPS = ['epoll_wait', 'timerfd_create', 'timerfd_settime', 'syslog', 'openlog']
+WRAPS = ['epoll_wait', 'timerfd_create', 'timerfd_settime', 'syslog', 'openlog', 'close']
+B_TARGETS = ('send_task_shortwrite', 'pkt_rcvr_task')
+C_TARGETS = ('accept_task', 'connect_task', 'connect_ex_task', 'notify_task')
 
 
 def _srcs(main):
@@ -12,6 +14,10 @@ def _srcs(main):
 
 def _build_b():
     return core.compile_c('C16', 'h_c16b', _srcs('harness/C16/h_c16b.c'), flags=['-pthread', '-Wl,' + ','.join('--wrap=' + w for w in WRAPS)])
+
+
+def _build_c():
+    return core.compile_c('C16', 'h_c16c', _srcs('harness/C16/h_c16c.c'), flags=['-pthread', '-Wl,' + ','.join('--wrap=' + w for w in WRAPS + ['connect', 'clock_gettime'])])
 
 
 def _build():
@@ -25,14 +31,18 @@ def run(tier):
     rep = core.Report('C16', tier, 'model_checking',
         'every task configuration (direction x event flags x callback-after-every-read x first-io scheduling x timeout x buffer window x '
         'callback policy) crossed with every environment history (all fragmentations of the payload arrival, peer close at any position, '
-        'timer expiry at any position, re-enable) is played into the real event loop and the real threadpool_task handlers; '
+        'timer expiry at any position, re-enable) is played into the real event loop and the real threadpool_task handlers; the accept, connect, '
+        'connect_ex and notify variants run against the real loop-back TCP stack (listening / refusing / never-answering addresses) with every '
+        'history of connections, expiries, closes and destroy points up to the depth bound; '
         'byte-stream and cursor invariants are checked in every callback and at quiescence; non-trivial = at least one task callback ran')
-    rep.assumptions = ['stream sockets over AF_UNIX socketpair; one loop thread; callbacks follow the documented return-code contract '
+    rep.assumptions = ['stream sockets over AF_UNIX socketpair, loop-back TCP for accept/connect; one loop thread; callbacks follow the documented return-code contract '
                        '(stop the task before returning a non-CONTINUE code unless TP_F_DISPATCH)']
     b = _build()
     core.run_sharded(rep, b, tier, hang_s=120, extra_args=(['--payload', '8'] if tier == 'thorough' else []))
     b2 = _build_b()
     core.run_sharded(rep, b2, tier, hang_s=120)
+    b3 = _build_c()
+    core.run_sharded(rep, b3, tier, hang_s=120)
     n = int(rep.total('run'))
     rep.extra['states'] = n
     rep.extra['transitions'] = n
@@ -40,12 +50,13 @@ def run(tier):
     rep.extra['explanation'] = 'states = (configuration, history) pairs executed on the real loop; every one is a trace of the implementation'
     r1 = core.make_replayer(lambda cfg: b, tier, extra_args=(['--payload', '8'] if tier == 'thorough' else []))
     r2 = core.make_replayer(lambda cfg: b2, tier)
-    rep.finish(lambda target, clause, idx, config: (r2 if target in ('send_task_shortwrite', 'pkt_rcvr_task') else r1)(target, clause, idx, config))
+    r3 = core.make_replayer(lambda cfg: b3, tier)
+    rep.finish(lambda target, clause, idx, config: (r2 if target in B_TARGETS else r3 if target in C_TARGETS else r1)(target, clause, idx, config))
 
 
 def replay(r, tier):
     import subprocess, sys
-    b = _build_b() if r['target'] in ('send_task_shortwrite', 'pkt_rcvr_task') else _build()
+    b = _build_b() if r['target'] in B_TARGETS else _build_c() if r['target'] in C_TARGETS else _build()
     p = subprocess.run([b, '--tier', tier, '--only', '%s#%s' % (r['target'], r['index'])], capture_output=True)
     sys.stdout.write(p.stdout.decode('utf-8', 'replace'))
     return 1 if b'VIOL\t' in p.stdout else 0
